@@ -237,14 +237,15 @@ def default_memkey(block):
 
 def symbolize_mems(sim, block, kind, default_value=0):
     """replace the plain-dict memory contents a freshly constructed simulator created by SymMem (same contents)"""
+    # one SymMem per distinct dict OBJECT: if the simulator made two memories share one dict, they share one SymMem too
+    swapped = {}
     for mid, m in mems_of(block).items():
-        if kind == 'sim':
-            if mid in sim.memvalue and isinstance(sim.memvalue[mid], dict):
-                sim.memvalue[mid] = SymMem.from_dict(sim.memvalue[mid], default_value, m.addrwidth, m.bitwidth)
-        else:
-            nm = sim._mem_varname(m)
-            if nm in sim.mems and isinstance(sim.mems[nm], dict):
-                sim.mems[nm] = SymMem.from_dict(sim.mems[nm], default_value, m.addrwidth, m.bitwidth)
+        store, key = (sim.memvalue, mid) if kind == 'sim' else (sim.mems, sim._mem_varname(m))
+        if key in store and isinstance(store[key], dict):
+            old = store[key]
+            if id(old) not in swapped:
+                swapped[id(old)] = (old, SymMem.from_dict(old, default_value, m.addrwidth, m.bitwidth))
+            store[key] = swapped[id(old)][1]
     return sim
 
 
@@ -299,17 +300,11 @@ def run_sim(block, K, vars_, kind='sim', reg_init='sym', mem_init='sym', default
         if kind == 'sim':
             sim = pyrtl.Simulation(tracer=tracer, register_value_map=rmap, memory_value_map=mmap,
                                    default_value=default_value, block=block)
-            memstore = sim.memvalue
-            for mid, m in mems.items():
-                if mid in memstore and isinstance(memstore[mid], dict):
-                    memstore[mid] = SymMem.from_dict(memstore[mid], default_value, m.addrwidth, m.bitwidth)
+            symbolize_mems(sim, block, 'sim', default_value)
         elif kind == 'fast':
             sim = pyrtl.FastSimulation(tracer=tracer, register_value_map=rmap, memory_value_map=mmap,
                                        default_value=default_value, block=block)
-            for mid, m in mems.items():
-                nm = sim._mem_varname(m)
-                if nm in sim.mems and isinstance(sim.mems[nm], dict):
-                    sim.mems[nm] = SymMem.from_dict(sim.mems[nm], default_value, m.addrwidth, m.bitwidth)
+            symbolize_mems(sim, block, 'fast', default_value)
         else:
             raise sym.HarnessError('unknown simulator kind ' + kind)
         extra = []
